@@ -117,6 +117,40 @@ pub fn replay_case(lib: &Lib, world: &World, line: &Value) -> Vec<Value> {
             None => bad("plug", format!("socket export `{name}` is not exported")),
         }
     }
+    // what is left to import: the socket's unsupplied imports and the imports of the contributing plugs;
+    // imports on one track (spec: `tracks`) merge under the highest version, unmergeable ones (`clashes`)
+    // make the encoding fail although plug() succeeded (KF27)
+    let mut left: Vec<(String, String)> =
+        lib.pkgs[sock].imports.iter().map(|x| x.0.clone()).filter(|n| !wiring.contains_key(n)).map(|n| (sock.to_string(), n)).collect();
+    for p in &contributing {
+        for (n, _) in &lib.pkgs[*p].imports {
+            left.push((p.to_string(), n.clone()));
+        }
+    }
+    let is_left = |v: &Value| left.iter().any(|(p, n)| v["p"] == *p && v["n"] == *n);
+    let conflict = line["clashes"].as_array().map(|a| a.iter().any(|c| is_left(&c["a"]) && is_left(&c["b"]))).unwrap_or(false);
+    let mut by_track: BTreeMap<String, (i64, String)> = BTreeMap::new();
+    for (_, n) in &left {
+        let t = &line["tracks"][n.as_str()];
+        let (key, rank) = (t["key"].as_str().unwrap_or(n).to_string(), t["rank"].as_i64().unwrap_or(0));
+        let e = by_track.entry(key).or_insert((rank, n.clone()));
+        if rank > e.0 {
+            *e = (rank, n.clone());
+        }
+    }
+    let want_im: BTreeSet<String> = by_track.values().map(|x| x.1.clone()).collect();
+    // the Impl layer of the specification predicts the same interface for the same wiring
+    let impl_w: BTreeSet<(String, String, String)> = line["impl"]["w"]
+        .as_array()
+        .map(|a| a.iter().map(|x| (x["imp"].as_str().unwrap().to_string(), x["plug"].as_str().unwrap().to_string(), x["exp"].as_str().unwrap().to_string())).collect())
+        .unwrap_or_default();
+    let real_w: BTreeSet<(String, String, String)> = wiring.iter().map(|(i, (p, e))| (i.clone(), p.clone(), e.clone())).collect();
+    if impl_w == real_w && !conflict {
+        let impl_im: BTreeSet<String> = line["impl"]["imports"].as_array().map(|a| a.iter().map(|x| x.as_str().unwrap().to_string()).collect()).unwrap_or_default();
+        if impl_im != want_im || line["impl"]["conflict"] == true {
+            bad("plug_tool", format!("the specification predicts imports {impl_im:?} for this wiring, the harness {want_im:?}"));
+        }
+    }
     // encodes to a valid component with exactly the expected interface
     for dc in [true, false] {
         let r = guarded(|| {
@@ -128,8 +162,11 @@ pub fn replay_case(lib: &Lib, world: &World, line: &Value) -> Vec<Value> {
         });
         match r {
             Err(p) => bad("plug", format!("encode after plug panicked: {p}")),
-            Ok(Err(e)) => bad("plug", format!("encode after plug failed: {e}")),
+            Ok(Err(e)) => bad("plug_encode", format!("encode after a successful plug failed: {e}")),
             Ok(Ok(bytes)) => {
+                if conflict {
+                    bad("plug", "two imports that are left cannot be merged, yet the composition encodes".into());
+                }
                 if let Err(e) = validate(&bytes) {
                     bad("plug", format!("encode after plug returned invalid bytes: {e}"));
                     continue;
@@ -138,17 +175,6 @@ pub fn replay_case(lib: &Lib, world: &World, line: &Value) -> Vec<Value> {
                     Err(e) => bad("plug", format!("output cannot be decoded: {e}")),
                     Ok(d) => {
                         let got_im: BTreeSet<String> = d.imports.iter().map(|x| x.0.clone()).collect();
-                        let mut want_im: BTreeSet<String> = lib.pkgs[sock]
-                            .imports
-                            .iter()
-                            .map(|x| x.0.clone())
-                            .filter(|n| !wiring.contains_key(n))
-                            .collect();
-                        for p in &contributing {
-                            for (n, _) in &lib.pkgs[*p].imports {
-                                want_im.insert(n.clone());
-                            }
-                        }
                         if got_im != want_im {
                             bad("plug", format!("imports of the result: {got_im:?}, expected {want_im:?}"));
                         }
@@ -158,6 +184,13 @@ pub fn replay_case(lib: &Lib, world: &World, line: &Value) -> Vec<Value> {
                         }
                     }
                 }
+            }
+        }
+    }
+    if conflict {
+        for x in f.iter_mut() {
+            if x["class"] == "plug_encode" {
+                x["kf"] = json!("plug-import-conflict");
             }
         }
     }
